@@ -337,6 +337,10 @@ ANCHORS = [
      r"saturating_sub\(self\.rtt\.last_rtt_measurement_ms\)\s*>\s*([\d_]+)", 3000),
     ("NAK_LOG_WINDOW", "crates/srtla-core/src/connection/congestion/mod.rs",
      r"if\s*\*window\s*<=\s*([\d_]+)\s*\{\s*let burst_info", 3000),
+    ("KA_RTT_CAP_MS", "crates/srtla-core/src/connection/rtt.rs",
+     r"rtt\s*>\s*0\s*&&\s*rtt\s*<=\s*([\d_]+)", 10000),
+    ("RTT_NEEDS_MEASUREMENT_GAP_MS", "crates/srtla-core/src/connection/rtt.rs",
+     r"saturating_sub\(self\.last_rtt_measurement_ms\)\s*>\s*([\d_]+)", 3000),
 ]
 
 
